@@ -181,7 +181,7 @@ def both_runs(verif, repo, use_cache, extra=(), part='main'):
     still decided."""
     args = ['--rlimit', RLIMIT, '--multiple-errors', MULTI, '--num-threads', '16', '-V', 'spinoff-all'] + list(extra)
     degrade, extern = set(), set()
-    for rnd in range(4):
+    for rnd in range(12):
         main_b = build.build(repo, verif, canary=False, degrade=degrade, extern=extern, part=part)
         r1 = run.run_verus(verif, main_b, 'main', args, use_cache)
         if not r1['hard_errors']:
